@@ -39,6 +39,18 @@ var docTexts = map[string]string{
 }
 var docNames = []string{"empty", "bare", "family", "faulted", "all-absent"}
 
+func init() {
+	for _, n := range []int{1001, 2500} {
+		var sb strings.Builder
+		for i := 0; i < n; i++ {
+			fmt.Fprintf(&sb, "0 @B%d@ INDI\n1 NAME P%d /Q%d/\n", i, i, i%7)
+		}
+		docTexts[fmt.Sprintf("big-%d", n)] = sb.String()
+	}
+	// a couple in which nobody has a name (renderings that fall back on the partner must end)
+	docTexts["nameless-couple"] = "0 @I1@ INDI\n1 SEX M\n1 FAMS @F1@\n0 @I2@ INDI\n1 SEX F\n1 FAMS @F1@\n0 @F1@ FAM\n1 HUSB @I1@\n1 WIFE @I2@\n0 @F2@ FAM\n1 HUSB @I1@\n1 WIFE @I1@\n"
+}
+
 type kase struct {
 	Query string   `json:"query"`
 	Docs  []string `json:"docs"`
@@ -280,7 +292,7 @@ var byteAlphabet = []byte{'.', '"', 'a', '1', '|', '(', ' ', 0xFF}
 
 // ---------- running ----------
 
-var docSets = [][]string{{"empty"}, {"bare"}, {"family"}, {"faulted"}, {"family", "faulted"}, {"empty", "family"}, {"all-absent"}}
+var docSets = [][]string{{"empty"}, {"bare"}, {"family"}, {"faulted"}, {"family", "faulted"}, {"empty", "family"}, {"all-absent"}, {"nameless-couple"}}
 
 func runQuery(r *vlib.Rec, query string, sets [][]string, after *string) {
 	for _, ds := range sets {
@@ -331,7 +343,7 @@ func run(tier, unit string, r *vlib.Rec) {
 					continue
 				}
 				r.Count("chain")
-				runQuery(r, cs[idx]+sfx, [][]string{{"family"}, {"faulted"}, {"all-absent"}}, &after)
+				runQuery(r, cs[idx]+sfx, [][]string{{"family"}, {"faulted"}, {"all-absent"}, {"nameless-couple"}}, &after)
 			}
 		}
 	case "mutations":
@@ -345,6 +357,11 @@ func run(tier, unit string, r *vlib.Rec) {
 		for idx := lo; idx < hi; idx++ {
 			r.Count("vars")
 			runQuery(r, vp[idx], [][]string{{"empty"}, {"family"}, {"family", "faulted"}}, &after)
+		}
+	case "big": // results with more entries than any internal buffer: documents of 1001 and 2500 bare individuals
+		for _, q := range []string{"MergeDocumentsAndIndividuals(Document1, Document2)", ".Individuals | Length", ".Individuals | .String | Length", "Combine(.Individuals, .Individuals) | Length"} {
+			r.Count("big")
+			runQuery(r, q, [][]string{{"big-1001", "empty"}, {"empty", "big-1001"}, {"big-1001", "big-2500"}}, &after)
 		}
 	case "bytes":
 		n, _ := strconv.Atoi(p[1])
@@ -374,6 +391,7 @@ func plan(tier string) []string {
 	out = append(out, vlib.Chunks("chains", int64(len(chains())), 300)...)
 	out = append(out, vlib.Chunks("mutations", int64(len(mutations())), 100)...)
 	out = append(out, vlib.Chunks("vars", int64(len(varPrograms())), 400)...)
+	out = append(out, "big:0:1")
 	for n := 0; n <= 4; n++ {
 		out = append(out, vlib.Chunks(fmt.Sprintf("bytes:%d", n), gen.Pow(len(byteAlphabet), n), 2000)...)
 	}
